@@ -48,6 +48,19 @@ func applyDiskFault(fs, before *simos.FS, f DiskFault, sector int) bool {
 	switch f.Kind {
 	case "overwrite":
 		fs.Files[f.File] = []byte(f.Text)
+	case "deep-nesting":
+		// millions of opening brackets (a generator gone wrong, a hostile
+		// sender): Text is what is repeated, Params[0] how often, Params[1]
+		// says whether it arrives as the value of a native-diff "+" line
+		n := 1
+		if len(f.Params) > 0 {
+			n = f.Params[0]
+		}
+		text := strings.Repeat(f.Text, n)
+		if len(f.Params) > 1 && f.Params[1] == 1 {
+			text = "@ []\n+ " + text + "\n"
+		}
+		fs.Files[f.File] = []byte(text)
 	case "bitrot":
 		if len(cur) == 0 {
 			return false
@@ -562,6 +575,9 @@ func genCase13(c *Chooser) C13Case {
 	branch := edit(c, g, edit(c, g, docs[0]))
 	cs.Files = append(cs.Files, File{"branch" + ext, Blob(docText(c, branch, iv.yaml))})
 	cs.Files = append(cs.Files, File{"empty" + ext, Blob("")}, File{"scalar" + ext, Blob("7")})
+	// a tiny document (the same text is JSON and YAML): what a hand-written
+	// hunk with an index or a context line too many meets
+	cs.Files = append(cs.Files, File{"tiny" + ext, Blob([]string{"[]", "[1]", "[1,2,3]", "{}", "{\"a\":[1]}", "[[1],2]", "[{\"id\":1}]", "\"x\"", "[" + strings.Repeat("[", 40) + strings.Repeat("]", 40) + ",1]", "{\"a\":[" + strings.Repeat("[", 40) + strings.Repeat("]", 40) + "]}"}[c.Int(10)])})
 	// some artefact that was there before (what a torn overwrite mixes with)
 	if c.Chance(1, 2) {
 		cs.Files = append(cs.Files, File{"p", Blob(privateRender(docs[0].JSON(0), branch.JSON(0), "jd"))})
@@ -650,7 +666,15 @@ func genCase13(c *Chooser) C13Case {
 	// wrote or edited by hand (the native format is meant to be editable):
 	// structurally valid hunks with arbitrary paths, context and metadata
 	operatorNative := false
-	if c.Chance(1, 6) {
+	if c.Chance(1, 2500) {
+		// the artefact (or, below, the target when File is left empty) is
+		// nested a few million levels deep
+		df := DiskFault{After: np - 1, Kind: "deep-nesting", File: "p", Text: []string{"[", "{\"a\":", "[{\"a\":"}[c.Int(3)], Params: []int{c.Range(1, 4) * 1000000, c.Int(2)}}
+		if c.Chance(1, 3) {
+			df.File, df.Params[1] = "", 0
+		}
+		cs.Disk = append(cs.Disk, df)
+	} else if c.Chance(1, 6) {
 		text := handWritten(c)
 		switch c.Int(4) {
 		case 0, 1:
@@ -726,6 +750,20 @@ func genCase13(c *Chooser) C13Case {
 		cs.Target = "scalar" + ext
 		cs.Skew = append(cs.Skew, "branch-target")
 	}
+	for _, df := range cs.Disk {
+		if df.Kind == "overwrite" && c.Chance(1, 2) {
+			cs.Target = "tiny" + ext
+			cs.Skew = append(cs.Skew, "branch-target")
+			if deep := strings.Repeat("[", 40); strings.Contains(df.Text, deep) {
+				// hunks about a deeply nested value meet a document holding it
+				for x := range cs.Files {
+					if cs.Files[x].Name == cs.Target {
+						cs.Files[x].Data = Blob([]string{"[" + deep + strings.Repeat("]", 40) + ",1]", "{\"a\":[" + deep + strings.Repeat("]", 40) + "]}", "[[" + deep + strings.Repeat("]", 40) + "],2]"}[c.Int(3)])
+					}
+				}
+			}
+		}
+	}
 	for x := range cs.Disk {
 		if cs.Disk[x].File == "" {
 			cs.Disk[x].File = cs.Target
@@ -781,6 +819,18 @@ func genCase13(c *Chooser) C13Case {
 	if len(consumer.Faults) == 0 && c.Chance(1, 6) {
 		kinds := []string{simos.FReadEACCES, simos.FReadENOENT, simos.FReadEIO, simos.FOpenWEACCES, simos.FOpenWENOENT, simos.FOpenWENOSPC, simos.FWriteENOSPC, simos.FWriteEIO, simos.FCloseEIO, simos.FKill, simos.FStdoutENOSPC, simos.FStdoutEIO, simos.FStderrEIO}
 		consumer.Faults = []simos.Fault{{Step: c.Int(8), Kind: kinds[c.Int(len(kinds))], Param: c.Int(40)}}
+	}
+	for _, df := range cs.Disk {
+		if df.Kind == "deep-nesting" {
+			// megabytes of input: delivered in large pieces (a byte at a time
+			// they would be millions of I/O steps, beyond the step limit that
+			// stands for "does not terminate")
+			cs.FileChunk = 0
+			if consumer.Stdin != nil {
+				consumer.Stdin.Plan, consumer.Stdin.EOFWithData = nil, false
+			}
+			consumer.Faults = nil
+		}
 	}
 	cs.Procs = append(cs.Procs, consumer)
 	if c.Chance(1, 5) {
@@ -941,6 +991,14 @@ func handWritten(c *Chooser) string {
 		elems = append(elems[20:], `"a"`, `0`, `{}`, `[]`, `{"id":1}`, `-1`)
 	}
 	vals := []string{`1`, `"x"`, `{}`, `[]`, `{"a":{"b":1}}`, `[1,2]`, `null`, `true`, `{"id":1,"a":2}`}
+	deep := strings.Repeat("[", 40) + strings.Repeat("]", 40)
+	deepTheme := !v1 && c.Chance(1, 12)
+	if deepTheme {
+		// values nested forty arrays deep, addressed as list, set or multiset
+		// members of a small document that holds the same value
+		vals = []string{deep, deep, `[` + deep + `]`, `1`, `2`}
+		elems = []string{`{}`, `[]`, `0`, `-1`, `"a"`, `{}`}
+	}
 	var prevPath []string
 	for h := 0; h < c.Range(1, 4); h++ {
 		if c.Chance(1, 3) && !(v1 && c.Chance(9, 10)) {
@@ -955,10 +1013,18 @@ func handWritten(c *Chooser) string {
 				path = append(path, elems[c.Int(len(elems))])
 			}
 		}
+		if !v1 && c.Chance(1, 4) {
+			// a hunk on a list at the document root
+			path = []string{[]string{`0`, `1`, `-1`, `2`, `-3`, `1e30`, `-1`}[c.Int(7)]}
+		}
 		prevPath = path
 		sb.WriteString("@ [" + strings.Join(path, ",") + "]\n")
 		if c.Chance(1, 3) && !(v1 && c.Chance(9, 10)) {
 			sb.WriteString([]string{"[\n", "  " + vals[c.Int(len(vals))] + "\n"}[c.Int(2)])
+			if c.Chance(1, 3) {
+				// more context than the format promises
+				sb.WriteString("  " + vals[c.Int(len(vals))] + "\n")
+			}
 		}
 		for i := 0; i < c.Int(3); i++ {
 			if c.Chance(1, 8) {
